@@ -142,6 +142,11 @@ def run(chk: core.Check, tier: str, seed: int) -> None:
                   "$..*", "$[?@[0] == @[1]]", "$[?value(@.p) != $[0]]", "$[?count(@.*) == 3]"):
             recs.append(impl.rec_total(jp, q, doc))
             recs.append(impl.rec_total(jp, q, doc, paths=True))
+    # number literals with huge exponents: compile, evaluate and serialise (accepted or refused, but never another exception)
+    for lit in ("1e400", "1e4300", "12e4299", "-1e5000", "1e309", "9e307", "1.5e308", "1.0e4300", "1e-400", "1e-5000", "123456789e4290", "1E+4300"):
+        for q in (f"$[?@ == {lit}]", f"$[?@.a < {lit} || @ > {lit}]", f"$[?length(@) >= {lit}]"):
+            for doc in ([1, 1e308, 10 ** 400, {"a": 0}], [float("inf"), -1.0]):
+                recs.append(impl.rec_total(jp, q, doc))
     # user-registered functions (classes without docstrings, a zero-parameter one among them) called with every number of arguments,
     # compared and uncompared: whatever a diagnostic says about a function, building it must not fail
     from .. import probes as _probes  # noqa: PLC0415
